@@ -29,6 +29,7 @@ func TestMain(m *testing.M) { pbt.Main(m) }
 type Action struct {
 	Op   string `json:"op"` // campaign renew resign leader advance lose stop slow
 	I    int    `json:"i,omitempty"`
+	J    int    `json:"j,omitempty"` // between: the contender whose campaign is injected
 	Ms   int64  `json:"ms,omitempty"`
 	Exec bool   `json:"exec,omitempty"` // lose: the request was executed before the connection died
 	Next string `json:"next,omitempty"` // lose: which call is lost (campaign|renew|resign)
@@ -46,6 +47,13 @@ func genCase(t *rapid.T) Case {
 	for i := 0; i < n; i++ {
 		a := Action{I: rapid.IntRange(0, c.N-1).Draw(t, "i")}
 		switch w := rapid.IntRange(0, 21).Draw(t, "op"); {
+		case w >= 20 && rapid.Bool().Draw(t, "between"):
+			// another contender's campaign, and the passage of time, fall BETWEEN two requests of one call (a call that is a single request -
+			// the scripts as they are - has no such moment and the step is an ordinary call followed by the other's campaign)
+			a.Op = "between"
+			a.Next = rapid.SampledFrom([]string{"campaign", "renew", "renew"}).Draw(t, "betweenNext")
+			a.J = rapid.IntRange(0, c.N-1).Draw(t, "j")
+			a.Ms = rapid.SampledFrom([]int64{0, 1, int64(c.TTL)*1000 - 1, int64(c.TTL) * 1000, int64(c.TTL)*1000 + 1, int64(c.TTL) * 2000}).Draw(t, "betweenMs")
 		case w >= 20:
 			// the call is made with a deadline (the renew loop uses LeaseRenewInterval) and the lease store answers after it
 			a.Op = "slow"
@@ -312,6 +320,86 @@ func run(c Case) (fs []failure, inconc string, facts map[string]bool) {
 				x.believes = now + ttlMs
 			default:
 				x.believes = 0
+			}
+		case "between":
+			if a.J == a.I || (x.stopped && a.Next == "renew") {
+				continue
+			}
+			y := cs[a.J]
+			var nreq atomic.Int64
+			var injected atomic.Bool
+			var yRole cluster.ClusterRole
+			var yErr error
+			var injAt int64
+			srv.Lock()
+			srv.Delay = func(cmd string, args [][]byte) time.Duration {
+				if injected.Load() {
+					return 0 // requests of the injected campaign itself, and what follows
+				}
+				if nreq.Add(1) == 2 && injected.CompareAndSwap(false, true) {
+					now += a.Ms
+					injAt = now
+					yRole, yErr = y.el.Campaign(ctx)
+				}
+				return 0
+			}
+			srv.Unlock()
+			var got bool
+			var err error
+			if a.Next == "campaign" {
+				var role cluster.ClusterRole
+				role, err = x.el.Campaign(ctx)
+				got = role == cluster.RoleLeader
+			} else {
+				err = x.el.Renew(ctx)
+				got = err == nil
+			}
+			srv.Lock()
+			srv.Delay = nil
+			srv.Unlock()
+			if !injected.Load() {
+				// the call was one request: an ordinary call, then the other contender's campaign after the time has passed
+				now += a.Ms
+				yRole, yErr = y.el.Campaign(ctx)
+				injAt = now
+			} else {
+				facts["campaign-between-two-requests-of-a-call"] = true
+			}
+			if yErr != nil {
+				return fs, fmt.Sprintf("campaign error: %v", yErr), facts
+			}
+			if err != nil && !errors.Is(err, cluster.ErrNotLeader) && !errors.Is(err, cluster.ErrNoLeader) {
+				return fs, fmt.Sprintf("%s error: %v", a.Next, err), facts
+			}
+			// no prediction of the two outcomes (either order of the two calls is a legal history): what each instance was told is taken
+			// as it is, the reference is brought in line with the lease store, and the invariants decide
+			if injected.Load() || true {
+				if got {
+					x.believes = now + ttlMs
+					if !injected.Load() {
+						x.believes = injAt - a.Ms + ttlMs
+					}
+				} else {
+					x.believes = 0
+				}
+				if yRole == cluster.RoleLeader {
+					y.believes = injAt + ttlMs
+				} else {
+					y.believes = 0
+				}
+				srv.Lock()
+				if e := srv.KS.DBs[0][key]; e != nil && (e.ExpireAt == 0 || now < e.ExpireAt) {
+					holder, expires = string(e.V.Str), e.ExpireAt
+				} else {
+					holder, expires = "", 0
+				}
+				srv.Unlock()
+			}
+			// a believer must be the holder the lease store knows
+			for _, z := range []*contender{x, y} {
+				if z.believes > now && (holder != z.id) {
+					fs = append(fs, failure{"told-leader-without-holding-the-lease", fmt.Sprintf("step %d %+v: %s was told it is leader (belief until %d, now %d) while the lease store holds %q", step, a, z.id, z.believes, now, holder)})
+				}
 			}
 		case "campaign", "renew":
 			if x.stopped && a.Op == "renew" {
